@@ -14,8 +14,9 @@ import (
 
 var fixedDeltas = []*int{ip(-3600), ip(-20), ip(-5), ip(3), ip(8), ip(15), ip(60), ip(3600), nil}
 
-// client credentials subtract 5s (not 10s): keep >=3s away from that boundary as well
-var ccFixedDeltas = []*int{ip(-3600), ip(-20), ip(-5), ip(1), ip(2), ip(9), ip(15), ip(60), ip(3600), nil,
+// client credentials subtract 5s (not 10s) from a lifetime which is relative to the receipt of the token: the values at and
+// next to that boundary (4, 5, 6) need no particular instant
+var ccFixedDeltas = []*int{ip(-3600), ip(-20), ip(-5), ip(1), ip(2), ip(4), ip(5), ip(6), ip(9), ip(15), ip(60), ip(3600), nil,
 	// more seconds than a time.Duration can hold (2^63 ns are about 9.2e9 s)
 	ip(-13835058055), ip(13835058055), ip(-9223372037)}
 
